@@ -142,6 +142,8 @@ def gen_ref(w, r):
         hot.append(l)
         del hot[:-3]
         return {"node": l}
+    if r.random() < 0.08:
+        return {"uuid": r.choice([0, (1 << 128) - 1])}  # nil / max UUID as a plain value
     return {"uuid": r.getrandbits(128)}
 
 
